@@ -183,29 +183,87 @@ theorem loadOp_set (s : State) (t : Tid) (th th' : Thread) (hth : s.threads[t]? 
   · rintro ⟨hne, x, v, hx, hp⟩
     exact ⟨x, v, by rw [get_set_other _ _ _ _ hne]; exact hx, hp⟩
 
-theorem linv_locked (s : State) (t : Tid) (th : Thread) (ph : LPhase) (hth : s.threads[t]? = some th)
-    (hl : s.lock = some (t, ph)) (hi : Inv s) (h : LInv s) : LInv (lockedStep s t th ph) := by
+theorem linRun_applied (t : Tid) (sq : Nat) (items : List Item) (acc : SpecMap × Bool) :
+    (items.map (fun it => Ev.applied t (it.entry sq))).foldl linStep acc =
+      ((items.map fun it => ((it.ks, it.key), it.val)).reverse ++ acc.1, acc.2) := by
+  induction items generalizing acc with
+  | nil => rfl
+  | cons it rest ih =>
+    simp only [List.map_cons, List.foldl_cons, linStep, ih, List.reverse_cons, List.append_assoc]
+    rfl
+
+theorem wbRun_applied (t : Tid) (sq : Nat) (items : List Item) (acc : List Tid × Bool) (ht : t ∈ acc.1) :
+    (items.map (fun it => Ev.applied t (it.entry sq))).foldl wbStep acc = acc := by
+  induction items generalizing acc with
+  | nil => rfl
+  | cons it rest ih =>
+    simp only [List.map_cons, List.foldl_cons, wbStep]
+    have : (acc.1, acc.2 && acc.1.contains t) = acc := by
+      have hc : acc.1.contains t = true := by simpa using ht
+      rw [hc, Bool.and_true]
+    rw [this]
+    exact ih acc ht
+
+/-- ingested entries, all at one seqno at least as high as everything stored, decide their keys -/
+theorem lookup_append_top (sq : Nat) (items : List Item) (store : List Entry) (m : SpecMap)
+    (hle : ∀ x ∈ store, x.seqno ≤ sq) (hm : ∀ ks key, specGet m ks key = lookup store ks key none) :
+    ∀ ks key, specGet ((items.map fun it => ((it.ks, it.key), it.val)).reverse ++ m) ks key =
+      lookup (store ++ items.map (Item.entry sq)) ks key none := by
+  induction items generalizing store m with
+  | nil => simpa using hm
+  | cons it rest ih =>
+    intro ks key
+    have hstep : ∀ ks key, specGet (((it.ks, it.key), it.val) :: m) ks key = lookup (store ++ [it.entry sq]) ks key none := by
+      intro ks key
+      rw [lookup_snoc_top _ _ _ _ (by intro x hx; exact hle x hx), ← hm]
+      simp only [specGet, Item.entry, Prod.mk.injEq]
+      rfl
+    have hle' : ∀ x ∈ store ++ [it.entry sq], x.seqno ≤ sq := by
+      intro x hx
+      simp only [List.mem_append, List.mem_singleton] at hx
+      rcases hx with hx | rfl
+      · exact hle x hx
+      · exact Nat.le_refl _
+    have := ih (store ++ [it.entry sq]) (((it.ks, it.key), it.val) :: m) hle' hstep ks key
+    simpa [List.reverse_cons, List.append_assoc] using this
+
+theorem store_lt_counter (s : State) (h : Inv s) (hl : ∀ t sq d r, s.lock ≠ some (t, .wDrawn sq d r)) :
+    ∀ e ∈ s.store, e.seqno ≤ s.counter := by
+  have hsh := h.shape
+  unfold Shape at hsh
+  split at hsh
+  · rename_i t sq d r hl'
+    exact absurd hl' (hl t sq d r)
+  · intro e he
+    rw [hsh] at he
+    obtain ⟨b, hb, hbe⟩ := specStore_seqno_mem _ e he
+    have := h.batLt b hb
+    omega
+
+theorem linv_locked (cfg : Cfg) (s s' : State) (t : Tid) (th : Thread) (ph : LPhase) (hth : s.threads[t]? = some th)
+    (hl : s.lock = some (t, ph)) (hstep : lockedStep cfg s t th ph = some s') (hi : Inv s) (h : LInv s) : LInv s' := by
   have hidle := h.lockIdle t ph th hl hth
   have hopen : ph.isWrite = true → t ∈ (wbRun s.log).1 := fun hne => (h.wbOpen t).mpr (Or.inl (by simp [lockOp, hl, hne]))
+  have hsame : ∀ (ph' : LPhase) (f : Option Nat) (c v w : Nat) (st : List Entry) (bs : List (Nat × List Item)),
+      ph.isWrite = true → ph'.isWrite = true →
+      LInv { s with lock := some (t, ph'), floor := f, counter := c, visible := v, wm := w, batches := bs } := by
+    intro ph' f c v w st bs h1 h2
+    refine ⟨h.linOk, h.linMap, h.wbOk, h.wbNodup, ?_, ?_⟩
+    · intro t'; rw [h.wbOpen t']; simp [InOp, lockOp, hl, h1, h2]
+    · intro t' ph'' th' hl' ht'
+      simp only [Option.some.injEq, Prod.mk.injEq] at hl'
+      rw [← hl'.1] at ht'; rw [hth] at ht'; cases ht'; exact hidle
   cases ph with
   | wLocked items =>
-    simp only [lockedStep]
-    refine ⟨h.linOk, h.linMap, h.wbOk, h.wbNodup, ?_, ?_⟩
-    · intro t'; rw [h.wbOpen t']; simp [InOp, lockOp, hl, LPhase.isWrite]
-    · intro t' ph' th' hl' ht'
-      simp only [Option.some.injEq, Prod.mk.injEq] at hl'
-      rw [← hl'.1] at ht'; rw [hth] at ht'; cases ht'; exact hidle
+    simp only [lockedStep, Option.some.injEq] at hstep; subst hstep
+    exact hsame (.wFloored items) (some s.visible) s.counter s.visible s.wm s.store s.batches rfl rfl
   | wFloored items =>
-    simp only [lockedStep]
-    refine ⟨h.linOk, h.linMap, h.wbOk, h.wbNodup, ?_, ?_⟩
-    · intro t'; rw [h.wbOpen t']; simp [InOp, lockOp, hl, LPhase.isWrite]
-    · intro t' ph' th' hl' ht'
-      simp only [Option.some.injEq, Prod.mk.injEq] at hl'
-      rw [← hl'.1] at ht'; rw [hth] at ht'; cases ht'; exact hidle
+    simp only [lockedStep, Option.some.injEq] at hstep; subst hstep
+    exact hsame (.wDrawn s.counter [] items) s.floor (s.counter + 1) s.visible s.wm s.store _ rfl rfl
   | wDrawn sq done rest =>
     cases rest with
     | cons it rest =>
-      simp only [lockedStep]
+      simp only [lockedStep, Option.some.injEq] at hstep; subst hstep
       have hin := hopen rfl
       refine ⟨?_, ?_, ?_, ?_, ?_, ?_⟩
       · rw [linRun_append]; simp [linStep, h.linOk]
@@ -225,14 +283,10 @@ theorem linv_locked (s : State) (t : Tid) (th : Thread) (ph : LPhase) (hth : s.t
         simp only [Option.some.injEq, Prod.mk.injEq] at hl'
         rw [← hl'.1] at ht'; rw [hth] at ht'; cases ht'; exact hidle
     | nil =>
-      simp only [lockedStep]
-      refine ⟨h.linOk, h.linMap, h.wbOk, h.wbNodup, ?_, ?_⟩
-      · intro t'; rw [h.wbOpen t']; simp [InOp, lockOp, hl, LPhase.isWrite]
-      · intro t' ph' th' hl' ht'
-        simp only [Option.some.injEq, Prod.mk.injEq] at hl'
-        rw [← hl'.1] at ht'; rw [hth] at ht'; cases ht'; exact hidle
+      simp only [lockedStep, Option.some.injEq] at hstep; subst hstep
+      exact hsame .wPublished none s.counter _ s.wm s.store s.batches rfl rfl
   | wPublished =>
-    simp only [lockedStep]
+    simp only [lockedStep, Option.some.injEq] at hstep; subst hstep
     have hin := hopen rfl
     refine ⟨?_, ?_, ?_, ?_, ?_, by simp⟩
     · rw [linRun_append]; simp [linStep, h.linOk]
@@ -253,13 +307,13 @@ theorem linv_locked (s : State) (t : Tid) (th : Thread) (ph : LPhase) (hth : s.t
         · cases h1
         · exact ⟨hne, Or.inr h1⟩
   | rLocked =>
-    simp only [lockedStep]
+    simp only [lockedStep, Option.some.injEq] at hstep; subst hstep
     refine ⟨h.linOk, h.linMap, h.wbOk, h.wbNodup, ?_, by simp⟩
     intro t'
     simp only [setThread_log]
     rw [h.wbOpen t']
     simp only [InOp, lockOp, setThread_threads, hl]
-    rw [loadOp_set s t th _ hth (by intro v; simp [hidle])]
+    rw [loadOp_set s t th _ hth (by simp)]
     constructor
     · rintro (h1 | ⟨x, v, hx, hp⟩)
       · simp [LPhase.isWrite] at h1
@@ -270,11 +324,29 @@ theorem linv_locked (s : State) (t : Tid) (th : Thread) (ph : LPhase) (hth : s.t
     · rintro (h1 | ⟨_, h1⟩)
       · cases h1
       · exact Or.inr h1
-
-end Fjall.Conc
-
-namespace Fjall.Conc
-open Fjall Fjall.Spec
+  | iLocked items =>
+    simp only [lockedStep, Option.some.injEq] at hstep; subst hstep
+    have hin := hopen rfl
+    refine ⟨?_, ?_, ?_, ?_, ?_, ?_⟩
+    · rw [linRun_append, linRun_applied]; exact h.linOk
+    · intro ks key
+      rw [linRun_append, linRun_applied]
+      exact lookup_append_top s.counter items s.store (linRun s.log).1
+        (store_lt_counter s hi (by intro t' sq d r hc; rw [hl] at hc; cases hc)) h.linMap ks key
+    · rw [wbRun_append, wbRun_applied _ _ _ _ hin]; exact h.wbOk
+    · rw [wbRun_append, wbRun_applied _ _ _ _ hin]; exact h.wbNodup
+    · intro t'
+      rw [wbRun_append, wbRun_applied _ _ _ _ hin]
+      rw [h.wbOpen t']; simp [InOp, lockOp, hl, LPhase.isWrite]
+    · intro t' ph' th' hl' ht'
+      simp only [Option.some.injEq, Prod.mk.injEq] at hl'
+      rw [← hl'.1] at ht'; rw [hth] at ht'; cases ht'; exact hidle
+  | iGc =>
+    simp only [lockedStep] at hstep
+    split at hstep
+    · cases hstep
+    · simp only [Option.some.injEq] at hstep; subst hstep
+      exact hsame .wPublished s.floor s.counter s.visible _ s.store s.batches rfl rfl
 
 theorem lockIdle_set (s : State) (t : Tid) (th' : Thread) (h : LInv s) (hnh : ∀ ph, s.lock ≠ some (t, ph)) :
     ∀ t' ph x, s.lock = some (t', ph) → (s.threads.set t th')[t']? = some x → x.phase = .idle := by
@@ -389,6 +461,92 @@ theorem linv_free (cfg : Cfg) (s s' : State) (t : Tid) (th : Thread)
       · intro t' ph x hl' hx
         simp only [Option.some.injEq, Prod.mk.injEq] at hl'
         rw [← hl'.1, hth] at hx; cases hx; exact hph
+  · -- needGc: tracker GC after a rotation
+    rename_i hph
+    split at hstep
+    · cases hstep
+    · simp only [Option.some.injEq] at hstep; subst hstep
+      refine ⟨h.linOk, h.linMap, h.wbOk, h.wbNodup, ?_, lockIdle_set s t _ h hnh⟩
+      intro t'
+      simp only [setThread_log]
+      rw [h.wbOpen t']
+      simp only [InOp, lockOp, setThread_threads, setThread_lock]
+      rw [loadOp_set s t th _ hth (by simp)]
+      constructor
+      · rintro (h1 | ⟨x, v, hx, hv⟩)
+        · left; exact h1
+        · right
+          refine ⟨?_, x, v, hx, hv⟩
+          intro he; subst he; rw [hth] at hx; cases hx; rw [hph] at hv; cases hv
+      · rintro (h1 | ⟨_, h1⟩)
+        · left; exact h1
+        · right; exact h1
+  · -- ingest: lock acquired, call
+    rename_i items _tl hph hprog
+    split at hstep
+    · cases hstep
+    · rename_i hl
+      simp only [Option.some.injEq] at hstep; subst hstep
+      have hni := hnot (by intro v; rw [hph]; simp)
+      refine ⟨?_, ?_, ?_, ?_, ?_, ?_⟩
+      · rw [linRun_append]; simp [linStep, h.linOk]
+      · intro ks key; rw [linRun_append]; simp only [List.foldl_cons, List.foldl_nil, linStep]; exact h.linMap ks key
+      · rw [wbRun_append]; simp [wbStep, h.wbOk, hni]
+      · rw [wbRun_append]; simp only [List.foldl_cons, List.foldl_nil, wbStep]; exact List.nodup_cons.mpr ⟨hni, h.wbNodup⟩
+      · intro t'
+        rw [wbRun_append]
+        simp only [List.foldl_cons, List.foldl_nil, wbStep, List.mem_cons]
+        rw [h.wbOpen t']
+        simp only [InOp, lockOp, hl, LPhase.isWrite, Bool.and_true, beq_iff_eq]
+        constructor
+        · rintro (h1 | h1 | h1)
+          · left; exact h1.symm
+          · cases h1
+          · right; exact h1
+        · rintro (h1 | h1)
+          · left; exact h1.symm
+          · right; right; exact h1
+      · intro t' ph x hl' hx
+        simp only [Option.some.injEq, Prod.mk.injEq] at hl'
+        rw [← hl'.1, hth] at hx; cases hx; exact hph
+  · -- gc
+    rename_i hph hprog
+    split at hstep
+    · cases hstep
+    · simp only [Option.some.injEq] at hstep; subst hstep
+      refine ⟨h.linOk, h.linMap, h.wbOk, h.wbNodup, ?_, lockIdle_set s t _ h hnh⟩
+      intro t'
+      simp only [setThread_log]
+      rw [h.wbOpen t']
+      simp only [InOp, lockOp, setThread_threads, setThread_lock]
+      rw [loadOp_set s t th _ hth (by intro v; simp [hph])]
+      constructor
+      · rintro (h1 | ⟨x, v, hx, hv⟩)
+        · left; exact h1
+        · right
+          refine ⟨?_, x, v, hx, hv⟩
+          intro he; subst he; rw [hth] at hx; cases hx; rw [hph] at hv; cases hv
+      · rintro (h1 | ⟨_, h1⟩)
+        · left; exact h1
+        · right; exact h1
+  · -- close
+    rename_i hph hprog
+    simp only [Option.some.injEq] at hstep; subst hstep
+    refine ⟨h.linOk, h.linMap, h.wbOk, h.wbNodup, ?_, lockIdle_set s t _ h hnh⟩
+    intro t'
+    simp only [setThread_log]
+    rw [h.wbOpen t']
+    simp only [InOp, lockOp, setThread_threads, setThread_lock]
+    rw [loadOp_set s t th _ hth (by intro v; simp [hph])]
+    constructor
+    · rintro (h1 | ⟨x, v, hx, hv⟩)
+      · left; exact h1
+      · right
+        refine ⟨?_, x, v, hx, hv⟩
+        intro he; subst he; rw [hth] at hx; cases hx; rw [hph] at hv; cases hv
+    · rintro (h1 | ⟨_, h1⟩)
+      · left; exact h1
+      · right; exact h1
   · -- snap: call
     rename_i hph hprog
     simp only [Option.some.injEq] at hstep; subst hstep
@@ -508,8 +666,7 @@ theorem step_linv (cfg : Cfg) (s : State) (t : Tid) (hi : Inv s) (h : LInv s) : 
         split at hs
         · rename_i heq
           subst heq
-          simp only [Option.some.injEq] at hs; subst hs
-          exact linv_locked s _ th ph hth hl hi h
+          exact linv_locked cfg s s' _ th ph hth hl hs hi h
         · rename_i hne
           refine linv_free cfg s s' t th hth ?_ hs hi h
           intro ph' hc; rw [hl] at hc
